@@ -1,4 +1,5 @@
 """C16 - thermostat control changes only what was asked (DESIGN.md 4/C16)"""
+from .common import frame_ok as _frame_ok
 import z3
 
 from pyvc.engine import Unit, Obligation
@@ -49,7 +50,7 @@ def units(tier):
         ob = outcome_of(lambda: ip.call_function(func("aioswitcher.api.remotes.SwitcherBreezeRemote.build_command"),
                                                  [remote, state, mode, t, Fan.LOW, Swing.ON, prev], {}, ctx))
         base = f"{PROP}/build_command_frame/{'toggle' if toggle else 'plain'}_{state.name}_{mode.name}_prev{prev.name if prev else 'None'}"
-        return [Obligation(base + "/assigns_nothing_reads_no_clock", ctx, not ctx.ghost.heap_writes and not ctx.ghost.module_writes and
+        return [Obligation(base + "/assigns_nothing_reads_no_clock", ctx, _frame_ok(ctx)[0] and
                            not ctx.ghost.clock_reads, note=str([(repr(o), a) for o, a in ctx.ghost.heap_writes][:2]))]
     u["build_command_frame"] = Unit("build_command_frame", PROP, frame, functions=["aioswitcher.api.remotes.SwitcherBreezeRemote.build_command"])
 
